@@ -13,10 +13,11 @@
       patterns bind exactly the field names the theorems above assume, and the rule loop run on
       the token shapes of the phrases fires the intended rule (for all binary64 values);
    5. the two spellings 'p%' and '%p'. *)
-From Coq Require Import QArith Qcanon Floats.
+From Coq Require Import QArith Qcanon Floats Lia.
 From SC.Model Require Import Base Num NumQ NumF64 Types Config Case Match Post Parser Items Interp RuleFns Rules
-     Api Run64.
+     Regex UiTokens Rx Lexer Api Run64.
 From SC.Spec Require Import Percent.
+From SC.Gen Require Import Regexes.
 
 (* ------------------------------------------------------------------------------------------ *)
 (* 1. operation sequences, any number algebra                                                   *)
@@ -543,6 +544,302 @@ Proof. intros H. by_lang H. Qed.
 End Selected.
 
 (* ------------------------------------------------------------------------------------------ *)
+(* 5. the two spellings 'p%' and '%p'                                                           *)
+(* ------------------------------------------------------------------------------------------ *)
+(* For every non-empty digit string ds: the first percent regex of config.json on "ds%" and the
+   second on "%ds" each find exactly one match, the whole literal, whose NUMBER group is ds; the
+   percent parser of the lexer (Lexer.percent_body, through Lexer.over_regexes) therefore adds
+   the same token Percent(read_decimal ds) for both.  Proved on the regenerated regex ASTs
+   (Gen/Regexes.g_parse) by induction over the backtracking matcher.  Signs, decimal and
+   thousands separators inside the literal, the other regex run on the other spelling, and the
+   parsers that run before the percent parser are left to the correspondence check (generator
+   tools/props/C05.py draws both spellings for every phrase) and to C05_line_examples. *)
+Section Spellings.
+Local Open Scope N_scope.
+
+Definition digit (c : N) : bool := ((48 <=? c) && (c <=? 57))%N.
+Definition digf := set_mem PT false [CRange 48 57].
+Definition signf := set_mem PT false [CRange 45 45; CRange 43 43].
+Definition sepf := set_mem PT false [CRange 44 44; CRange 46 46].
+Definition pctf := set_mem PT false [CRange 37 37].
+
+Lemma digit_facts c : digit c = true ->
+  digf c = true /\ signf c = false /\ sepf c = false /\ pctf c = false /\ utf8_width c = 1.
+Proof.
+  unfold digit, digf, signf, sepf, pctf, set_mem, utf8_width. cbn [items_mem cls_mem].
+  intros H. apply andb_true_iff in H. destruct H as [H1 H2].
+  apply N.leb_le in H1. apply N.leb_le in H2.
+  repeat match goal with
+  | |- context [?a <? ?b] => destruct (N.ltb_spec a b); try lia
+  | |- context [?a <=? ?b] => destruct (N.leb_spec a b); try lia
+  end; repeat split.
+Qed.
+
+(* the number part of both percent regexes; [g] is the index of the inner group *)
+Definition numm (g : nat) : matcher :=
+  m_cat (m_rep (m_set signf) 0 (Some 1%nat) true)
+        (m_cat (m_rep (m_set digf) 1 None true)
+               (m_rep (m_group g (m_cat (m_set sepf) (m_rep (m_set digf) 1 None true))) 0 None true)).
+
+Fixpoint advst (tail : list N) (pos : N) (prev : option N) (rem : nat) (caps : list (nat * (N * N)))
+         (ds : list N) : mstate :=
+  match ds with
+  | [] => MS tail pos prev rem caps
+  | c :: t => advst tail (pos + utf8_width c) (Some c) (Nat.pred rem) caps t
+  end.
+
+Definition tail_ok (tail : list N) : Prop :=
+  match tail with [] => True | c :: _ => digf c = false /\ sepf c = false end.
+
+Lemma plus_digits : forall ds tail pos prev rem caps fuel first k r,
+  ds <> [] -> forallb digit ds = true -> tail_ok tail -> (length ds <= fuel)%nat ->
+  k (advst tail pos prev rem caps ds) = Some r ->
+  m_plus (m_set digf) true fuel first (MS (ds ++ tail) pos prev rem caps) k = Some r.
+Proof.
+  induction ds as [|d ds IH]; intros tail pos prev rem caps fuel first k r Hne Hd Ht Hf Hk; [congruence|].
+  cbn [forallb] in Hd. apply andb_true_iff in Hd. destruct Hd as [Hd Hds].
+  destruct (digit_facts d Hd) as (Df & _ & _ & _ & Dw).
+  destruct fuel as [|f]; [cbn [length] in Hf; lia|].
+  cbn [m_plus]. unfold m_set at 1. cbn [ms_rest app]. rewrite Df. cbn [ms_pos ms_prev ms_rem ms_caps].
+  assert (E : (pos + utf8_width d =? pos) = false) by (apply N.eqb_neq; lia).
+  rewrite E. cbn [advst] in Hk.
+  destruct ds as [|d' ds'].
+  - cbn [advst] in Hk. cbn [app].
+    assert (N0 : m_plus (m_set digf) true f false (MS tail (pos + utf8_width d) (Some d) (Nat.pred rem) caps) k = None).
+    { destruct f; [reflexivity|]. cbn [m_plus]. unfold m_set. cbn [ms_rest].
+      destruct tail as [|c t]; [reflexivity|]. destruct Ht as [Ht _]. rewrite Ht. reflexivity. }
+    rewrite N0. exact Hk.
+  - rewrite (IH tail (pos + utf8_width d) (Some d) (Nat.pred rem) caps f false k r); try assumption.
+    + reflexivity.
+    + discriminate.
+    + cbn [length] in Hf |- *. lia.
+Qed.
+
+Lemma advst_fields : forall ds tail pos prev rem caps, forallb digit ds = true ->
+  ms_rest (advst tail pos prev rem caps ds) = tail /\
+  ms_pos (advst tail pos prev rem caps ds) = pos + N.of_nat (length ds) /\
+  ms_caps (advst tail pos prev rem caps ds) = caps.
+Proof.
+  induction ds as [|d ds IH]; intros tail pos prev rem caps Hd.
+  - cbn. repeat split. lia.
+  - cbn [forallb] in Hd. apply andb_true_iff in Hd. destruct Hd as [Hd Hds].
+    destruct (digit_facts d Hd) as (_ & _ & _ & _ & Dw).
+    cbn [advst]. destruct (IH tail (pos + utf8_width d) (Some d) (Nat.pred rem) caps Hds) as (A & B & C).
+    rewrite A, B, C. repeat split. cbn [length]. lia.
+Qed.
+
+Lemma sign_skip st k :
+  match ms_rest st with c :: _ => signf c = false | [] => True end ->
+  m_rep (m_set signf) 0 (Some 1%nat) true st k = k st.
+Proof.
+  intros H. unfold m_rep. cbn [Nat.sub m_exactly m_upto]. unfold m_eps, m_set.
+  destruct (ms_rest st); [reflexivity|]. rewrite H. reflexivity.
+Qed.
+
+Lemma rep0_skip mr st k : (forall k', mr st k' = None) -> m_rep mr 0 None true st k = k st.
+Proof. intros H. unfold m_rep, plus_fuel. cbn [m_plus]. rewrite H. reflexivity. Qed.
+
+Lemma digits_rep ds tail pos prev rem caps k r :
+  ds <> [] -> forallb digit ds = true -> tail_ok tail -> (length ds <= S (S rem))%nat ->
+  k (advst tail pos prev rem caps ds) = Some r ->
+  m_rep (m_set digf) 1 None true (MS (ds ++ tail) pos prev rem caps) k = Some r.
+Proof.
+  intros. unfold m_rep. cbn [m_exactly]. unfold m_eps, plus_fuel. cbn [ms_rem].
+  apply plus_digits; assumption.
+Qed.
+
+(* the number part consumes the whole digit run and hands over to the continuation *)
+Lemma numm_digits g ds tail pos prev rem caps k r :
+  ds <> [] -> forallb digit ds = true -> tail_ok tail -> (length ds <= S (S rem))%nat ->
+  k (advst tail pos prev rem caps ds) = Some r ->
+  numm g (MS (ds ++ tail) pos prev rem caps) k = Some r.
+Proof.
+  intros Hne Hd Ht Hf Hk.
+  unfold numm, m_cat. rewrite sign_skip.
+  2:{ cbn [ms_rest]. destruct ds as [|d ds]; [congruence|]. cbn [app].
+      cbn [forallb] in Hd. apply andb_true_iff in Hd. destruct Hd as [Hd0 _].
+      apply (digit_facts d Hd0). }
+  apply digits_rep; try assumption.
+  cbv beta. rewrite rep0_skip; [exact Hk|].
+  intros k'. unfold m_group, m_set.
+  destruct (advst_fields ds tail pos prev rem caps Hd) as (A & _ & _). rewrite A.
+  destruct tail as [|c t]; [reflexivity|]. destruct Ht as [_ Ht]. rewrite Ht. reflexivity.
+Qed.
+
+Definition percent_cres : list cre :=
+  match assoc (s "percent") g_parse with Some l => l | None => [] end.
+
+Definition M1 : matcher := m_cat (m_group 1 (numm 2)) (m_group 3 (m_set pctf)).
+Definition M2 : matcher := m_cat (m_group 1 (m_set pctf)) (m_group 2 (numm 3)).
+
+Lemma M1_empty pos prev rem caps k : M1 (MS [] pos prev rem caps) k = None.
+Proof. reflexivity. Qed.
+Lemma M2_empty pos prev rem caps k : M2 (MS [] pos prev rem caps) k = None.
+Proof. reflexivity. Qed.
+
+Lemma len_app1 (ds : list N) : length (ds ++ [37]) = S (length ds).
+Proof. rewrite app_length. cbn. lia. Qed.
+
+(* 'ds%': one match, NUMBER = ds, PERCENT = '%' *)
+Lemma M1_match ds : ds <> [] -> forallb digit ds = true ->
+  let n := N.of_nat (length ds) in
+  exists stf, M1 (MS (ds ++ [37]) 0 None (length (ds ++ [37])) []) k_done = Some stf /\
+    ms_rest stf = [] /\ ms_pos stf = n + 1 /\
+    ms_caps stf = [(3%nat, (n, n + 1)); (1%nat, (0, n))].
+Proof.
+  intros Hne Hd n.
+  set (rem := length (ds ++ [37])).
+  destruct (advst_fields ds [37] 0 None rem [] Hd) as (A & B & C).
+  set (a := advst [37] 0 None rem [] ds) in *.
+  eexists. split.
+  - unfold M1, m_cat. unfold m_group at 1. cbn [ms_pos].
+    apply numm_digits; try assumption.
+    + split; reflexivity.
+    + unfold rem. rewrite len_app1. lia.
+    + cbv beta. fold a. unfold m_group, m_set. cbn [ms_rest ms_pos ms_prev ms_rem ms_caps].
+      rewrite A. change (pctf 37) with true. cbv iota. unfold k_done. reflexivity.
+  - cbn [ms_rest ms_pos ms_caps]. rewrite B, C. change (utf8_width 37) with 1.
+    repeat split.
+Qed.
+
+Lemma M2_match ds : ds <> [] -> forallb digit ds = true ->
+  let n := N.of_nat (length ds) in
+  exists stf, M2 (MS (37 :: ds) 0 None (length (37 :: ds)) []) k_done = Some stf /\
+    ms_rest stf = [] /\ ms_pos stf = n + 1 /\
+    ms_caps stf = [(2%nat, (1, n + 1)); (1%nat, (0, 1))].
+Proof.
+  intros Hne Hd n.
+  set (rem := Nat.pred (length (37 :: ds))).
+  destruct (advst_fields ds [] (0 + utf8_width 37) (Some 37) rem [(1%nat, (0, 0 + utf8_width 37))] Hd) as (A & B & C).
+  set (a := advst [] (0 + utf8_width 37) (Some 37) rem [(1%nat, (0, 0 + utf8_width 37))] ds) in *.
+  eexists. split.
+  - unfold M2, m_cat. unfold m_group at 1. unfold m_set at 1. cbn [ms_rest ms_pos ms_prev ms_rem ms_caps].
+    change (pctf 37) with true. cbv iota. unfold m_group. cbn [ms_rest ms_pos ms_prev ms_rem ms_caps].
+    rewrite <- (app_nil_r ds) at 1.
+    apply numm_digits; try assumption.
+    + exact I.
+    + unfold rem. cbn [length Nat.pred]. do 2 apply le_S. apply le_n.
+    + cbv beta. fold rem. fold a. unfold k_done. reflexivity.
+  - cbn [ms_rest ms_pos ms_caps]. rewrite A, B, C. change (utf8_width 37) with 1.
+    subst n. replace (0 + 1 + N.of_nat (length ds)) with (N.of_nat (length ds) + 1) by lia.
+    change (0 + 1) with 1. repeat split.
+Qed.
+
+Lemma search_hit mr rest pos prev rem st :
+  mr (MS rest pos prev rem []) k_done = Some st -> search mr rest pos prev rem = Some (pos, st).
+Proof. intros H. destruct rest; cbn [search]; rewrite H; reflexivity. Qed.
+
+Lemma iter_one mr ng fuel rest (stf : mstate) :
+  mr (MS rest 0 None (length rest) []) k_done = Some stf ->
+  ms_rest stf = [] -> ms_pos stf <> 0 ->
+  (forall pos prev rem, mr (MS [] pos prev rem []) k_done = None) ->
+  iter_loop (S (S fuel)) mr ng rest 0 None (length rest) None = [render_caps ng 0 stf].
+Proof.
+  intros E R P Hn. cbn [iter_loop]. rewrite (search_hit _ _ _ _ _ _ E). cbv iota beta zeta.
+  assert (Q : (0 =? ms_pos stf) = false) by (apply N.eqb_neq; congruence).
+  rewrite Q. rewrite R. cbn [search]. rewrite Hn. reflexivity.
+Qed.
+
+Theorem spellings c1 c2 ds :
+  percent_cres = [c1; c2] -> ds <> [] -> forallb digit ds = true ->
+  let n := N.of_nat (length ds) in
+  caps_iter c1 (ds ++ [37]) = [[Some (0, n + 1); Some (0, n); None; Some (n, n + 1)]] /\
+  caps_iter c2 (37 :: ds) = [[Some (0, n + 1); Some (0, 1); Some (1, n + 1); None]].
+Proof.
+  intros H Hne Hd n. vm_compute in H. injection H as <- <-.
+  unfold caps_iter, captures_iter_p. cbn [cre_rx cre_n]. split.
+  - change (compile PT _) with M1.
+    destruct (M1_match ds Hne Hd) as (stf & E & R & P & C).
+    rewrite (iter_one M1 3 _ _ stf E R).
+    + unfold render_caps. rewrite P, C. reflexivity.
+    + rewrite P. lia.
+    + intros. apply M1_empty.
+  - change (compile PT _) with M2.
+    destruct (M2_match ds Hne Hd) as (stf & E & R & P & C).
+    rewrite (iter_one M2 3 _ _ stf E R).
+    + unfold render_caps. rewrite P, C. reflexivity.
+    + rewrite P. lia.
+    + intros. apply M2_empty.
+Qed.
+
+(* ---- the percent parser of the lexer on the two spellings ---- *)
+Lemma digit_w c : digit c = true -> utf8_w c = 1.
+Proof.
+  intros H. unfold digit in H. apply andb_true_iff in H. destruct H as [_ H]. apply N.leb_le in H.
+  unfold utf8_w. destruct (N.ltb_spec c 128); [reflexivity | lia].
+Qed.
+
+Lemma take_digits ds : forall tail, forallb digit ds = true ->
+  take_bytes (ds ++ tail) (N.of_nat (length ds)) = ds.
+Proof.
+  induction ds as [|d ds IH]; intros tail Hd.
+  - destruct tail; reflexivity.
+  - cbn [forallb] in Hd. apply andb_true_iff in Hd. destruct Hd as [Hd Hds].
+    cbn [app take_bytes length]. rewrite (digit_w d Hd).
+    destruct (N.eqb_spec (N.of_nat (S (length ds))) 0) as [E|_]; [lia|].
+    replace (N.of_nat (S (length ds)) - 1) with (N.of_nat (length ds)) by lia.
+    rewrite IH by assumption. reflexivity.
+Qed.
+
+Lemma slice_number1 ds : forallb digit ds = true ->
+  slice (ds ++ [37]) (0, N.of_nat (length ds)) = ds.
+Proof.
+  intros Hd. unfold slice. cbn [fst snd]. rewrite N.sub_0_r.
+  assert (E : drop_bytes (ds ++ [37]) 0 = ds ++ [37]) by (destruct ds; reflexivity).
+  rewrite E. apply take_digits. exact Hd.
+Qed.
+
+Lemma slice_number2 ds : forallb digit ds = true ->
+  slice (37 :: ds) (1, N.of_nat (length ds) + 1) = ds.
+Proof.
+  intros Hd. unfold slice. cbn [fst snd drop_bytes]. change (utf8_w 37) with 1.
+  change (1 =? 0) with false. cbv iota. change (1 - 1) with 0.
+  assert (E : drop_bytes ds 0 = ds) by (destruct ds; reflexivity).
+  rewrite E. replace (N.of_nat (length ds) + 1 - 1) with (N.of_nat (length ds)) by lia.
+  rewrite <- (app_nil_r ds) at 1. apply take_digits. exact Hd.
+Qed.
+
+Section Tok.
+Context {F : Type} {NF : Num F}.
+
+(* both spellings give one Percent token over the whole literal, with the same value: the
+   decimal reading of the digit string *)
+Theorem spellings_token (cfg : config F) c1 c2 ds x :
+  percent_cres = [c1; c2] -> ds <> [] -> forallb digit ds = true ->
+  read_decimal cfg ds = Some x ->
+  let n := N.of_nat (length ds) in
+  let shape (r : res (@tstate F)) :=
+      match r with
+      | Ok st => map (fun t => (ti_start t, ti_end t, ti_ty t, ti_active t)) (ts_infos st)
+      | Panic _ => []
+      end in
+  shape (over_regexes (percent_body cfg (ds ++ [37])) (ds ++ [37]) [c1] empty_state)
+    = [(0, n + 1, Some (TPercent x), true)] /\
+  shape (over_regexes (percent_body cfg (37 :: ds)) (37 :: ds) [c2] empty_state)
+    = [(0, n + 1, Some (TPercent x), true)].
+Proof.
+  intros H Hne Hd Hx n shape.
+  destruct (spellings c1 c2 ds H Hne Hd) as [S1 S2]. fold n in S1, S2.
+  vm_compute in H. injection H as <- <-.
+  split.
+  - cbn [over_regexes]. rewrite S1. cbn [over_captures]. unfold percent_body at 1.
+    unfold cap_name. cbn [cre_names]. 
+    change (assoc (s "NUMBER") _) with (Some 1%nat). cbv iota.
+    change (assoc (s "PERCENT") _) with (Some 3%nat). cbv iota.
+    unfold cap_get. cbn [nth_opt need bind]. unfold n. rewrite (slice_number1 ds Hd), Hx.
+    cbn [add_token empty_state collides ts_infos existsb]. cbv iota. reflexivity.
+  - cbn [over_regexes]. rewrite S2. cbn [over_captures]. unfold percent_body at 1.
+    unfold cap_name. cbn [cre_names].
+    change (assoc (s "NUMBER") _) with (Some 2%nat). cbv iota.
+    change (assoc (s "PERCENT") _) with (Some 1%nat). cbv iota.
+    unfold cap_get. cbn [nth_opt need bind]. unfold n. rewrite (slice_number2 ds Hd), Hx.
+    cbn [add_token empty_state collides ts_infos existsb]. cbv iota. reflexivity.
+Qed.
+End Tok.
+
+End Spellings.
+
+(* ------------------------------------------------------------------------------------------ *)
 (* 6. non-vacuity: concrete values                                                              *)
 (* ------------------------------------------------------------------------------------------ *)
 Section Examples.
@@ -708,3 +1005,36 @@ Lemma rational_examples (cfg : config Qc) :
     [(s "number_part", qtok (TMoney (qz 20) (s "TRY"))); (s "percent_part", qtok (TPercent (qz 10)))]
     = Ok (Some (TMoney (qz 200) (s "TRY"))).
 Proof. split; [exact (rule_example_money cfg) | exact (rule_example_what cfg)]. Qed.
+
+(* packaging of the spelling theorems *)
+Section SpellPack.
+Local Open Scope N_scope.
+Lemma spellings_full c1 c2 (ds : str) :
+  percent_cres = [c1; c2] -> ds <> [] -> forallb digit ds = true ->
+  let n := N.of_nat (length ds) in
+  (caps_iter c1 (ds ++ [37%N]) = [[Some (0, n + 1); Some (0, n); None; Some (n, n + 1)]] /\
+   cap_name c1 [Some (0, n + 1); Some (0, n); None; Some (n, n + 1)] "NUMBER" = Some (0, n) /\
+   slice (ds ++ [37%N]) (0, n) = ds) /\
+  (caps_iter c2 (37%N :: ds) = [[Some (0, n + 1); Some (0, 1); Some (1, n + 1); None]] /\
+   cap_name c2 [Some (0, n + 1); Some (0, 1); Some (1, n + 1); None] "NUMBER" = Some (1, n + 1) /\
+   slice (37%N :: ds) (1, n + 1) = ds).
+Proof.
+  intros H Hne Hd n. destruct (spellings c1 c2 ds H Hne Hd) as [S1 S2]. fold n in S1, S2.
+  vm_compute in H. injection H as <- <-.
+  split; (split; [assumption|split]).
+  - reflexivity.
+  - apply slice_number1. exact Hd.
+  - reflexivity.
+  - apply slice_number2. exact Hd.
+Qed.
+
+Lemma spellings_nonvacuous :
+  (exists c1 c2, percent_cres = [c1; c2]) /\ forallb digit (s "0123456789") = true /\
+  (forall c, digit c = true <-> 48 <= c <= 57).
+Proof.
+  split; [|split].
+  - vm_compute. eexists. eexists. reflexivity.
+  - vm_compute. reflexivity.
+  - intros c. unfold digit. rewrite andb_true_iff, !N.leb_le. reflexivity.
+Qed.
+End SpellPack.
